@@ -17,6 +17,7 @@ EXPLANATION = (
     "clamp(c) = c whenever is_within_bounds(c), clamp∘clamp = clamp, clamp_assign ≡ clamp, and the thresholds equal the type's public "
     "min_*/max_* accessors. HWB forms (coupled whiteness+blackness) are compared with the documented renormalisation formula instead. "
     "Blanket FromColor / TryFromColor / Alpha / slice impls are checked for composition shape. Not decided: rounding in the HWB division."
+    " BOUNDS-SLICE: the slice impl ANDs in every item and exits early only when every lane of the accumulator is false."
 )
 
 
